@@ -15,7 +15,7 @@ the loop lemma of SrcEqFindLoops.lean (`trans_loop`, `rule_loop`), whose hypothe
 translated body against one iteration of the model (`transStep`, `ruleStep`) — is proved here by following the
 body's branches.
 -/
-import TzVerif.Generated.Src
+import TzVerif.SrcBase
 import TzVerif.Model.Find
 import TzVerif.Proofs.SrcEqZone
 import TzVerif.Proofs.SrcEqFindLoops
